@@ -6,8 +6,12 @@ mod c01;
 mod c03;
 mod c04;
 mod c05;
+mod c06;
 mod c08;
+mod c08q;
 mod c10;
+mod c12;
+mod c13;
 mod c14;
 mod c15;
 mod c19;
@@ -29,8 +33,12 @@ fn main() {
         "C03" => c03::run(seed, std::env::args().nth(3).as_deref() == Some("thorough")),
         "C04" => c04::run(seed, std::env::args().nth(3).as_deref() == Some("thorough")),
         "C05" => c05::run(seed, std::env::args().nth(3).as_deref() == Some("thorough")),
+        "C06" => c06::run(seed, std::env::args().nth(3).as_deref() == Some("thorough")),
         "C08" => c08::run(seed),
+        "C08Q" => c08q::run(seed, std::env::args().nth(3).as_deref() == Some("thorough")),
         "C10" => c10::run(seed, std::env::args().nth(3).as_deref() == Some("thorough")),
+        "C12" => c12::run(seed, std::env::args().nth(3).as_deref() == Some("thorough")),
+        "C13" => c13::run(seed, std::env::args().nth(3).as_deref() == Some("thorough")),
         "C14" => c14::run(seed, std::env::args().nth(3).as_deref() == Some("thorough")),
         "C15" => c15::run(seed),
         "C19" => c19::run(seed, std::env::args().nth(3).as_deref() == Some("thorough")),
